@@ -179,6 +179,17 @@ class Module:
             for sub in node.body:
                 if isinstance(sub, (ast.FunctionDef, ast.AsyncFunctionDef)):
                     ci.methods[sub.name] = FuncInfo(self, sub, ci)
+            for sub in node.body:     # class-level method aliases:  __getattr__ = __getitem__
+                if isinstance(sub, ast.Assign) and len(sub.targets) == 1:
+                    t, v = sub.targets[0], sub.value
+                    pairs = []
+                    if isinstance(t, ast.Name) and isinstance(v, ast.Name):
+                        pairs = [(t, v)]
+                    elif isinstance(t, ast.Tuple) and isinstance(v, ast.Tuple) and len(t.elts) == len(v.elts):
+                        pairs = list(zip(t.elts, v.elts))
+                    for a, b in pairs:
+                        if isinstance(a, ast.Name) and isinstance(b, ast.Name) and b.id in ci.methods:
+                            ci.methods[a.id] = ci.methods[b.id]
         elif isinstance(node, ast.Assign) and len(node.targets) == 1 and isinstance(node.targets[0], ast.Name):
             self.consts[node.targets[0].id] = node.value
         elif isinstance(node, ast.AnnAssign) and isinstance(node.target, ast.Name) and node.value is not None:
